@@ -3,6 +3,17 @@ import json, os
 VERIF = os.path.dirname(os.path.dirname(os.path.abspath(__file__)))
 PROOF = "proof"
 CHECKS = {
+ "C20": dict(
+    text="Lean 4 theorems: tn.partial along mode d is the stencil matrix applied to mode d only, so every entry of the compressed "
+         "derivative is the stencil row of its own index applied to the dense fibre (L1, any number of modes/ranks/formats); stencil rows: "
+         "interior (x[i+1]−x[i−1])/step, linearly extrapolated ends, periodic wrap; constants along d are annihilated; linearity. The model "
+         "(orders 1..3, periodic, bounds) is tied to /repo core-for-core; gradient/divergence/curl/laplacian/partialset and the step "
+         "convention (step of mode d from mode d's own bounds and size) by a dense NumPy stencil oracle.",
+    note="Trusted: Lean kernel + standard axioms; harness glue; NumPy stencil as oracle; sampling. c = 1/step enters the model as a "
+         "scalar (exact rational in the correspondence); affine→constant and the grad/div/curl/laplacian combinations are checked by the "
+         "oracle only; partialset (forward differences selected by a weight mask) has no Lean model.",
+    tech="Lean 4 proof (L1 with a single-mode matrix; stencil row lemmas) + differential correspondence + dense oracle search",
+    ref="§3 C20"),
  "C06": dict(
     text="Lean 4 theorems: the interface sweep of tn.dot returns Σ t·u (any modes/ranks/formats), normsq, symmetry, the dist identity "
          "‖t‖²+‖u‖²−2⟨t,u⟩ = Σ(t−u)² (so the clamped radicand is the squared distance also for negative inner products), sums over "
